@@ -6,6 +6,26 @@ fn usage() -> ! {
 	std::process::exit(2)
 }
 
+fn run_check(id: &str, ctx: Arc<Ctx>) {
+	match id {
+		"C02" => checks::c02::run(ctx),
+		"C03" => checks::c03::run(ctx),
+		"C04" => checks::c04::run(ctx),
+		"C05" => checks::http::c05(ctx),
+		"C06" => checks::c06::run(ctx),
+		"C07" => checks::http::c07(ctx),
+		"C08" => checks::c08::run(ctx),
+		"C09" => checks::c09::run(ctx),
+		"C10" => checks::c10::run(ctx),
+		"C11" => checks::c11::run(ctx),
+		"C16" => checks::c16::run(ctx),
+		_ => {
+			eprintln!("MACHINERY: no re-enumeration replay for {id}");
+			std::process::exit(2)
+		}
+	}
+}
+
 fn main() {
 	let args: Vec<String> = std::env::args().collect();
 	if args.len() < 2 {
@@ -41,10 +61,32 @@ fn main() {
 		"C12" => "fault_enumeration",
 		_ => "model_checking",
 	};
+	let case = replay.as_deref().map(findings::read_replay);
+	let dedicated = matches!(id.as_str(), "C01" | "C12" | "C14" | "C15" | "C17" | "C18" | "C19" | "C20");
+	if let (Some(path), false) = (replay.as_deref(), dedicated) {
+		// replay by re-enumeration: the check is run twice, filtered to the recorded case; both runs must agree
+		let rtier = if findings::read_replay_tier(path) == "thorough" { Tier::Thorough } else { Tier::Quick };
+		let mut sigs = vec![];
+		let mut last = None;
+		for _ in 0..2 {
+			let mut c = Ctx::new(&id, rtier, level);
+			c.replay_mode = true;
+			c.replay_filter = case.clone();
+			let c = Arc::new(c);
+			run_check(&id, c.clone());
+			sigs.push(c.violations_snapshot().iter().map(|v| v.signature.clone()).collect::<Vec<_>>());
+			last = Some(c);
+		}
+		if sigs[0] != sigs[1] {
+			eprintln!("MACHINERY: replay observations differ between two runs");
+			std::process::exit(2);
+		}
+		println!("  case: {}", case.as_ref().unwrap());
+		std::process::exit(last.unwrap().finish());
+	}
 	let mut ctx = Ctx::new(&id, tier, level);
 	ctx.replay_mode = replay.is_some();
 	let ctx = Arc::new(ctx);
-	let case = replay.as_deref().map(findings::read_replay);
 	let result = std::panic::catch_unwind(std::panic::AssertUnwindSafe(|| match (id.as_str(), &case) {
 		("C16", None) => checks::c16::run(ctx.clone()),
 		("C16", Some(c)) => checks::c16::replay(ctx.clone(), c),
